@@ -18,7 +18,8 @@ DistClauses(d) ==
      (IF got \subseteq ST THEN {} ELSE {"terminal_output_not_a_spanning_tree"})
   \cup (IF ST \subseteq got THEN {} ELSE {"some_spanning_tree_has_probability_zero"})
   \cup (IF \A k \in 1..Len(d.terms) : ProbIsOneOverN(d.terms[k], N, d.exact) THEN {} ELSE {"tree_probability_not_one_over_N"})
-SumSq(q, e) == FoldSeq(LAMBDA x, acc : acc + (x.n - e) * (x.n - e), 0, q)
+\* saturating (TLC integers are 32 bit; a grossly non-uniform sample must be convicted, not overflow)
+SumSq(q, e) == FoldSeq(LAMBDA x, acc : IF acc > 1000000000 THEN acc ELSE acc + (x.n - e) * (x.n - e), 0, q)
 FreqClauses(f) ==
   LET ST == SpanningTrees(f.R, f.C)  N == Cardinality(ST)
       got == {SlotSet(f.counts[k].slots) : k \in 1..Len(f.counts)}
@@ -27,7 +28,7 @@ FreqClauses(f) ==
       S == SumSq(f.counts, E) + unseen * E * E IN
      (IF got \subseteq ST THEN {} ELSE {"drawn_maze_not_a_spanning_tree"})
   \cup (IF ST \subseteq got THEN {} ELSE {"some_spanning_tree_never_drawn"})
-  \cup (IF S * f.thr[2] <= f.thr[1] * E THEN {} ELSE {"frequencies_not_uniform_chi_square"})
+  \cup (IF S <= (f.thr[1] * E) \div f.thr[2] THEN {} ELSE {"frequencies_not_uniform_chi_square"})
 Clauses(r) == IF r.kind = "dist" THEN DistClauses(r) ELSE FreqClauses(r)
 \* design-level sanity (model checked): the matrix-tree counts
 ASSUME Cardinality(SpanningTrees(2, 2)) = 4
